@@ -2,18 +2,6 @@
 # usage: cross_prop.sh <binary> <Cnn> [variant-dir-prefix]  — runs ONE property's quick check against every benign variant
 # (each applied in its own scratch worktree) and prints the variants on which it does not exit 0.
 BIN="$1"; P="$2"; PRE="${3:-benign/}"
-one() {
-  V="$1"; BIN="$2"; P="$3"
-  WT=$(mktemp -d /tmp/cp-XXXXXX); rmdir "$WT"; OUT=$(mktemp -d /tmp/cpout-XXXXXX)
-  git -C /repo worktree add --detach "$WT" HEAD -q || exit 3
-  if patch -p1 -s -f -d "$WT" -i "/verif/$V/patch.diff" >/dev/null 2>&1; then
-    cp /verif/known_findings.json "$OUT/"
-    out=$(VERIF_REPO="$WT" VERIF_DIR="$OUT" "$BIN" -prop $P -tier quick 2>&1); rc=$?
-    [ $rc -ne 0 ] && echo "$V $P rc=$rc $(echo "$out" | grep -E '^  (violation|undecided)' | sed "s#$WT/##g" | cut -c1-180 | tr '\n' ';')"
-  fi
-  git -C /repo worktree remove --force "$WT"; rm -rf "$OUT"
-}
-export -f one 2>/dev/null
 ls /verif/$PRE* -d | sed 's#/verif/##' | xargs -P 12 -I{} sh -c '
   V="{}"; BIN="'"$BIN"'"; P="'"$P"'"
   WT=$(mktemp -d /tmp/cp-XXXXXX); rmdir "$WT"; OUT=$(mktemp -d /tmp/cpout-XXXXXX)
